@@ -54,7 +54,7 @@ pub fn bracket_string(rng: &mut Rng, max: usize) -> String {
         .map(|_| match rng.below(8) {
             0..=3 => ']',
             4 | 5 => '>',
-            6 => 'a',
+            6 => *rng.pick(&['a', '\r', '\n', '&']),
             _ => xml_char(rng),
         })
         .collect()
